@@ -1780,6 +1780,15 @@ class Deb822ParagraphElement(Deb822Element, Deb822ParagraphToStrWrapperMixin, AB
         # type: () -> Deb822ParagraphElement
         return self
 
+    def _ensure_final_newline(self):
+        # type: () -> None
+        """Ensure the last field ends on a newline (needed before placing anything after it)"""
+        last_kvpair = None
+        for last_kvpair in self.iter_parts():
+            pass
+        if isinstance(last_kvpair, Deb822KeyValuePairElement):
+            last_kvpair.value_element.add_final_newline_if_missing()
+
     def order_last(self, field):
         # type: (ParagraphKey) -> None
         """Re-order the given field so it is "last" in the paragraph"""
@@ -2099,12 +2108,14 @@ class Deb822NoDuplicateFieldsParagraphElement(Deb822ParagraphElement):
         # type: (ParagraphKey) -> None
         """Re-order the given field so it is "last" in the paragraph"""
         unpacked_field, _, _ = _unpack_key(field, raise_if_indexed=True)
+        self._ensure_final_newline()
         self._kvpair_order.order_last(unpacked_field)
 
     def order_first(self, field):
         # type: (ParagraphKey) -> None
         """Re-order the given field so it is "first" in the paragraph"""
         unpacked_field, _, _ = _unpack_key(field, raise_if_indexed=True)
+        self._ensure_final_newline()
         self._kvpair_order.order_first(unpacked_field)
 
     def order_before(self, field, reference_field):
@@ -2114,6 +2125,7 @@ class Deb822NoDuplicateFieldsParagraphElement(Deb822ParagraphElement):
         The reference field must be present."""
         unpacked_field, _, _ = _unpack_key(field, raise_if_indexed=True)
         unpacked_ref_field, _, _ = _unpack_key(reference_field, raise_if_indexed=True)
+        self._ensure_final_newline()
         self._kvpair_order.order_before(unpacked_field, unpacked_ref_field)
 
     def order_after(self, field, reference_field):
@@ -2124,6 +2136,7 @@ class Deb822NoDuplicateFieldsParagraphElement(Deb822ParagraphElement):
         """
         unpacked_field, _, _ = _unpack_key(field, raise_if_indexed=True)
         unpacked_ref_field, _, _ = _unpack_key(reference_field, raise_if_indexed=True)
+        self._ensure_final_newline()
         self._kvpair_order.order_after(unpacked_field, unpacked_ref_field)
 
     def iter_keys(self):
@@ -2170,6 +2183,8 @@ class Deb822NoDuplicateFieldsParagraphElement(Deb822ParagraphElement):
             # way
             key = value.field_name
         original_value = self._kvpair_elements.get(key)
+        if original_value is None:
+            self._ensure_final_newline()
         self._kvpair_elements[key] = value
         self._kvpair_order.append(key)
         if original_value is not None:
@@ -2249,6 +2264,7 @@ class Deb822DuplicateFieldsParagraphElement(Deb822ParagraphElement):
         """Re-order the given field so it is "last" in the paragraph"""
         nodes, nodes_being_relocated = self._nodes_being_relocated(field)
         assert len(nodes_being_relocated) == 1 or len(nodes) == len(nodes_being_relocated)
+        self._ensure_final_newline()
 
         kvpair_order = self._kvpair_order
         for node in nodes_being_relocated:
@@ -2270,6 +2286,7 @@ class Deb822DuplicateFieldsParagraphElement(Deb822ParagraphElement):
         """Re-order the given field so it is "first" in the paragraph"""
         nodes, nodes_being_relocated = self._nodes_being_relocated(field)
         assert len(nodes_being_relocated) == 1 or len(nodes) == len(nodes_being_relocated)
+        self._ensure_final_newline()
 
         kvpair_order = self._kvpair_order
         for node in nodes_being_relocated:
@@ -2293,6 +2310,7 @@ class Deb822DuplicateFieldsParagraphElement(Deb822ParagraphElement):
         The reference field must be present."""
         nodes, nodes_being_relocated = self._nodes_being_relocated(field)
         assert len(nodes_being_relocated) == 1 or len(nodes) == len(nodes_being_relocated)
+        self._ensure_final_newline()
         # For "before" we always use the "first" variant as reference in case of doubt
         _, reference_nodes = self._nodes_being_relocated(reference_field)
         reference_node = reference_nodes[0]
@@ -2317,6 +2335,7 @@ class Deb822DuplicateFieldsParagraphElement(Deb822ParagraphElement):
         """
         nodes, nodes_being_relocated = self._nodes_being_relocated(field)
         assert len(nodes_being_relocated) == 1 or len(nodes) == len(nodes_being_relocated)
+        self._ensure_final_newline()
         _, reference_nodes = self._nodes_being_relocated(reference_field)
         # For "after" we always use the "last" variant as reference in case of doubt
         reference_node = reference_nodes[-1]
@@ -2456,6 +2475,7 @@ class Deb822DuplicateFieldsParagraphElement(Deb822ParagraphElement):
                       " in the first place.  Please index-less key or ({key}, 0) if you" \
                       " want to add the field."
                 raise KeyError(msg.format(key=key, index=index))
+            self._ensure_final_newline()
             node = self._kvpair_order.append(value)
             if key not in self._kvpair_elements:
                 self._kvpair_elements[key] = [node]
@@ -2666,6 +2686,7 @@ class Deb822FileElement(Deb822Element):
             # Empty list or idx after the last paragraph both degenerate into append
             self.append(para)
         else:
+            para._ensure_final_newline()
             if needs_newline:
                 # Remember to inject the "separating" newline between two paragraphs
                 nl_token = self._set_parent(Deb822WhitespaceToken('\n'))
@@ -2705,8 +2726,15 @@ class Deb822FileElement(Deb822Element):
         # Note the special case where the file ends on a comment; here we insert a whitespace too
         # to be sure.  Otherwise we would have to check that there is an empty line before that
         # comment and that is too much effort.
+        if isinstance(tail_element, Deb822ParagraphElement):
+            tail_element._ensure_final_newline()
         if tail_element and not isinstance(tail_element, Deb822WhitespaceToken):
-            self._token_and_elements.append(self._set_parent(Deb822WhitespaceToken('\n')))
+            separator = '\n'
+            if isinstance(tail_element, Deb822Element) and \
+                    not tail_element.convert_to_text().endswith('\n'):
+                # The file ends on a comment without a newline; terminate that line first
+                separator = '\n\n'
+            self._token_and_elements.append(self._set_parent(Deb822WhitespaceToken(separator)))
         self._token_and_elements.append(self._set_parent(paragraph))
         paragraph.parent_element = self
 
